@@ -51,6 +51,8 @@ ATOMS = [
     datetime.timedelta(1, 2, 3), datetime.timezone.utc,
     "datetime.date(2020, 1, 2)", "/a/b",
 ]
+# integers whose two's-complement 64-bit pattern is the IEEE-754 pattern of a float of the alphabet (-0.0, 1.0, -1.0, inf, nan, 5e-324)
+ATOMS += [int.from_bytes(__import__("struct").pack("!d", f_), "big", signed=True) for f_ in (-0.0, 1.0, -1.0, float("inf"), float("nan"), 5e-324)]
 SMALL = [None, True, 0, 1, 2 ** 31, 0.0, float("nan"), "", "a", "|", "__DDS_NONE__", pathlib.PurePosixPath("a")]
 KEYS = ["a", "b", "x", "", "|", 0, 1, None, "1", "0", "None", True, 1.0, "1.0"]   # "x", "a", "b" = the field names of DC1 / DC2
 
